@@ -182,6 +182,44 @@ def run_one(case):
                             f"gradient shape {got.shape} / dtype {got.dtype} for an argument of shape {xs.shape} / {'complex' if cplx_in else 'real'}"))
             except Exception as e:
                 out.append((f"{label}|arg{a}", "N-vjp-raises", True, f"{type(e).__name__}: {str(e)[:80]}"))
+            # ---- second order (real input only): Hessian of the scalarised function by reverse-over-reverse and forward-over-reverse
+            #      against central differences of autograd's own first-order gradient (which N-vjp checks separately)
+            if not cplx_in and n_in and n_in <= 9 and not any(t_ in label for t_ in ("maximum", "minimum", "fmax", "fmin", "mod ", "remainder", "abs", "sort", "eigh vecs")):
+                try:
+                    cw = _mk(y0.shape, "C" if cplx_out else "R", 13)
+                    sfun = lambda z: anp.real(anp.sum(f(z) * cw))
+                    gfun = lambda z: make_vjp(sfun, z)[0](1.0)
+                    g0 = onp.asarray(gfun(x), dtype=float)
+                    Hnum = onp.zeros((n_in, n_in))
+                    hh = 1e-5
+                    for i in range(n_in):
+                        e = onp.zeros(n_in)
+                        e[i] = 1
+                        e = e.reshape(xs.shape) if xs.shape != () else float(e[0])
+                        Hnum[:, i] = ((onp.asarray(gfun(x + hh * e), dtype=float) - onp.asarray(gfun(x - hh * e), dtype=float)) / (2 * hh)).ravel()
+                    Hrr = onp.zeros((n_in, n_in))
+                    Hfr = onp.zeros((n_in, n_in))
+                    for i in range(n_in):
+                        e = onp.zeros(n_in)
+                        e[i] = 1
+                        e = e.reshape(xs.shape) if xs.shape != () else float(e[0])
+                        Hrr[:, i] = onp.asarray(make_vjp(lambda z: anp.sum(gfun(z) * e), x)[0](1.0), dtype=float).ravel()
+                    fwd_ok = True
+                    try:
+                        for i in range(n_in):
+                            e = onp.zeros(n_in)
+                            e[i] = 1
+                            e = e.reshape(xs.shape) if xs.shape != () else float(e[0])
+                            Hfr[:, i] = onp.asarray(make_jvp(gfun, x)(e)[1], dtype=float).ravel()
+                    except Exception:
+                        fwd_ok = False   # no forward rule for some primitive of the gradient: forward-over-reverse raises (allowed)
+                    sc = 1 + float(onp.max(onp.abs(Hnum)))
+                    e1, e3 = float(onp.max(onp.abs(Hrr - Hnum))), float(onp.max(onp.abs(Hrr - Hrr.T)))
+                    e2 = float(onp.max(onp.abs(Hfr - Hnum))) if fwd_ok else 0.0
+                    okh = e1 <= 2e-4 * sc and e2 <= 2e-4 * sc and e3 <= 1e-6 * sc
+                    out.append((f"{label}|arg{a}", "N-hess", okh, f"|H_rev-rev - H_fd| = {e1:.2e}, |H_fwd-rev - H_fd| = {e2:.2e}{'' if fwd_ok else ' (forward-over-reverse raises)'}, asymmetry = {e3:.2e} (scale {sc:.2f})"))
+                except Exception as e:
+                    out.append((f"{label}|arg{a}", "N-hess-raises", True, f"{type(e).__name__}: {str(e)[:80]}"))
             try:
                 t = _mk(xs.shape, "C" if cplx_in else "R", 5)
                 tv = onp.asarray(t).ravel()
